@@ -43,21 +43,75 @@ theorem parseSign_tot (hc : Rel c) (np rq : Bool) (ip ms : String) (b : Bytes) (
     · exact hv
     · exact Adv.refl b hv
 
+/-- `read_if_value*` move the cursor only: the digit counts and the slice are unchanged -/
+theorem readIfValueCased_csum (hc : Rel c) (k : Comp) (v : Nat) (b : Bytes) (hv : b.index ≤ b.slc.length)
+    (hit : Bool) (b' : Bytes) (h : readIfValueCased c k v b = .ok (hit, b')) : csum b' = csum b ∧ b'.slc = b.slc := by
+  obtain ⟨x, b1, hp, ha, _, hcs⟩ := peek_tot hc k b hv
+  unfold readIfValueCased at h
+  simp only [hp, bind, Except.bind] at h
+  split at h
+  · rw [iterStep_rel hc] at h
+    simp only [pure, Except.pure, Except.ok.injEq, Prod.mk.injEq] at h
+    obtain ⟨_, rfl⟩ := h
+    exact ⟨hcs, ha.slc⟩
+  · simp only [pure, Except.pure, Except.ok.injEq, Prod.mk.injEq] at h
+    obtain ⟨_, rfl⟩ := h
+    exact ⟨hcs, ha.slc⟩
+
+theorem readIfValue_csum (hc : Rel c) (k : Comp) (v : Nat) (cased : Bool) (b : Bytes) (hv : b.index ≤ b.slc.length)
+    (hit : Bool) (b' : Bytes) (h : readIfValue c k v cased b = .ok (hit, b')) : csum b' = csum b ∧ b'.slc = b.slc := by
+  unfold readIfValue at h
+  split at h
+  · exact readIfValueCased_csum hc k v b hv hit b' h
+  · obtain ⟨x, b1, hp, ha, _, hcs⟩ := peek_tot hc k b hv
+    unfold readIfValueUncased at h
+    simp only [hp, bind, Except.bind] at h
+    split at h
+    · split at h
+      · rw [iterStep_rel hc] at h
+        simp only [pure, Except.pure, Except.ok.injEq, Prod.mk.injEq] at h
+        obtain ⟨_, rfl⟩ := h
+        exact ⟨hcs, ha.slc⟩
+      · simp only [pure, Except.pure, Except.ok.injEq, Prod.mk.injEq] at h
+        obtain ⟨_, rfl⟩ := h
+        exact ⟨hcs, ha.slc⟩
+    · simp only [pure, Except.pure, Except.ok.injEq, Prod.mk.injEq] at h
+      obtain ⟨_, rfl⟩ := h
+      exact ⟨hcs, ha.slc⟩
+
+/-- holds for BOTH values of the switch `prefixRepair` (the repaired code restores the cursor: `set_cursor(prefix_start)`
+with `prefix_start ≤ buffer_length`, counts untouched) -/
 theorem prefixPhase_tot (hc : Rel c) (b : Bytes) (hv : b.index ≤ b.slc.length) :
     TotP Prod.snd b (prefixPhase c b) := by
   unfold prefixPhase
   split
   · obtain ⟨zero, b1, hr, ha, _⟩ := readIfValueCased_tot hc .integer 48 b hv
+    have hc1 := readIfValueCased_csum hc .integer 48 b hv zero b1 hr
     simp only [hr, bind, Except.bind, pure, Except.pure]
     cases zero with
     | false => exact ha
     | true =>
       simp only [if_true]
       obtain ⟨hit, b2, hr2, ha2⟩ := readIfValue_tot hc .integer c.basePrefix c.caseSensitiveBasePrefix b1 ha.valid'
+      have hc2 := readIfValue_csum hc .integer _ _ b1 ha.valid' hit b2 hr2
       simp only [hr2]
-      split
-      · exact (ha.trans ha2).valid
-      · exact ha.trans ha2
+      by_cases hR : prefixRepair = true
+      · rw [if_pos hR]
+        cases hit with
+        | true =>
+          simp only [if_true]
+          split
+          · exact (ha.trans ha2).valid
+          · exact ha.trans ha2
+        | false =>
+          have hsl : b2.slc = b.slc := hc2.2.trans hc1.2
+          simp only [Bool.false_eq_true, if_false]
+          rw [if_pos (by rw [hsl]; exact hv)]
+          exact ⟨hsl, hv, Nat.le_refl _, by simp only [csum] at *; omega⟩
+      · rw [if_neg hR]
+        split
+        · exact (ha.trans ha2).valid
+        · exact ha.trans ha2
   · exact Adv.refl b hv
 
 theorem sliceTo_ok (start : Bytes) (n : Nat) (tag : String) (h : n ≤ start.slc.length - start.index) :
